@@ -97,7 +97,8 @@ theorem step_refines (r : Ring) (hi : r.Inv) (op : Op) :
       | cons x xs => rfl
   | isFull =>
     refine ⟨r, ?_, hi, by simp only [BQ.step, Ring.abs, hq, hcp]⟩
-    simp only [Ring.step, BQ.step]
+    have hc0 : ¬ (r.cap = 0) := by have := hi.capPos; omega
+    simp only [Ring.step, BQ.step, Ring.isFull?, if_neg hc0, Option.map_some]
     have h := isFull_spec r hi
     rw [hq, hcp] at h
     cases he : r.isFull with
